@@ -203,7 +203,7 @@ class TransportModel(object):
                 m |= (mask & (READ | WRITE)) | (mask & ERROR)
             return m
         if s.state == 'connected':
-            if (s.rcv or s.eof or s.err) and mask & READ:
+            if (s.rcv or s.eof_ready() or s.err) and mask & READ:
                 m |= READ
             if len(s.out) < s.cap and mask & WRITE:
                 m |= WRITE
